@@ -1,6 +1,7 @@
 package main
 
 import (
+	"go/token"
 	"fmt"
 	"go/ast"
 	"go/constant"
@@ -173,7 +174,7 @@ func c19Table(c *Ctx, r *Report) []string {
 	// writers
 	var writers []*ssa.Function
 	var initFn *ssa.Function
-	okAppend := false
+	okAppend, helperPanics := false, false
 	for _, f := range modFunctions(c) {
 		allInstrs(f, func(in ssa.Instruction) {
 			st, ok := in.(*ssa.Store)
@@ -196,6 +197,11 @@ func c19Table(c *Ctx, r *Report) []string {
 						if len(elems) == 1 && strings.Contains(apath(elems[0]), "net.ParseCIDR(") {
 							okAppend = true
 						}
+						if len(elems) == 1 {
+							if hc, ok := elems[0].(*ssa.Call); ok && parsesCIDROrPanics(hc.Call.StaticCallee()) {
+								okAppend, helperPanics = true, true
+							}
+						}
 					}
 				}
 			}
@@ -212,7 +218,7 @@ func c19Table(c *Ctx, r *Report) []string {
 		return nil
 	}
 	// ParseCIDR error ⇒ panic
-	okPanic := false
+	okPanic := helperPanics
 	allInstrs(initFn, func(in ssa.Instruction) {
 		if _, ok := in.(*ssa.Panic); ok {
 			okPanic = true
@@ -511,4 +517,46 @@ func c19Lints(c *Ctx, r *Report) {
 		}
 	}
 	r.Check(bad == "", "lint-reports", "e_subject_contains_reserved_ip", fn.Pos(), "Error iff the common name parses as an IP that is reserved", bad)
+}
+
+// parsesCIDROrPanics: a helper newer than the rules of the shape
+// func(s string) *net.IPNet { _, n, err := net.ParseCIDR(s); if err != nil { panic(…) }; return n }.
+func parsesCIDROrPanics(h *ssa.Function) bool {
+	if h == nil || !isNewFunc(h) || len(h.Params) != 1 {
+		return false
+	}
+	var parse *ssa.Call
+	panics := false
+	allInstrs(h, func(in ssa.Instruction) {
+		if call, ok := in.(*ssa.Call); ok && staticCalleeName(&call.Call) == "net.ParseCIDR" && len(call.Call.Args) == 1 && call.Call.Args[0] == ssa.Value(h.Params[0]) {
+			parse = call
+		}
+		if _, ok := in.(*ssa.Panic); ok {
+			panics = true
+		}
+	})
+	if parse == nil || !panics {
+		return false
+	}
+	for _, ret := range realReturns(h) {
+		rv := retVals(ret)
+		if len(rv) != 1 {
+			return false
+		}
+		ex, ok := rv[0].(*ssa.Extract)
+		if !ok || ex.Tuple != ssa.Value(parse) || ex.Index != 1 {
+			return false
+		}
+		// the return is reached only when the error is nil
+		guarded := false
+		for _, ref := range *parse.Referrers() {
+			if e2, ok := ref.(*ssa.Extract); ok && e2.Index == 2 && guardedBy(ret.Block(), e2, token.EQL) {
+				guarded = true
+			}
+		}
+		if !guarded {
+			return false
+		}
+	}
+	return true
 }
